@@ -631,83 +631,89 @@ def m_enclosing(pm, node):
     return pm.enclosing_func(node)
 
 
+def _ir_exec(nodes, env, budget):
+    """straight interpretation of the integer fragment of the IR (assignments, declarations, if/while/for-range)"""
+    for n in nodes:
+        budget[0] -= 1
+        if budget[0] < 0:
+            raise AnalysisError("prologue interpretation did not terminate")
+        cn = type(n).__name__
+        ev = lambda e_: e_ if isinstance(e_, (int, float)) else eval(str(e_).replace("&&", " and ").replace("||", " or ").replace("!(", " not (").replace("true", "True").replace("false", "False"), {"__builtins__": {}}, env)
+        if cn in ("VarAssign", "VarDecl"):
+            env[n.name] = ev(n.expr)
+        elif cn == "IfStatement":
+            for br in n.branches:
+                if ev(br.condition):
+                    _ir_exec(br.body, env, budget)
+                    break
+            else:
+                _ir_exec(n.else_body or [], env, budget)
+        elif cn == "WhileLoop":
+            while ev(n.condition):
+                _ir_exec(n.body, env, budget)
+        elif cn == "ForRangeLoop":
+            for i_ in range(int(ev(n.count))):
+                env[n.var_name] = i_
+                _ir_exec(n.body, env, budget)
+        elif cn in ("Sleep", "ExprStmt", "LedDecl", "LedOn", "LedOff"):
+            continue
+        else:
+            raise AnalysisError(f"prologue interpretation met an unexpected {cn} node")
+
+
 def rule_global_init(cx, rid):
+    """integer prologues through parse() (partial evaluation): the global declarations (static initialisers, evaluated in
+    definition order before anything runs) followed by the setup statements must leave every variable with the value the
+    Python prologue leaves it - however the bake-or-assign decision is written"""
     pm = mod(PARSER)
     cx.consulted(pm)
-    r = cx.rule(rid, "a global initialiser is baked into the declaration only when the right-hand side is a constant AND mentions no names; otherwise the declaration gets the type's default and the value is assigned at its source position", floor=4)
-    ha = pm.func("_handle_assignment_ast")
-    tr = CondTrace(lambda s: isinstance(s, ast.Assign) and isinstance(s.targets[0], ast.Name) and s.targets[0].id == "decl",
-                   marks=lambda s: {"DEFAULTED"} if isinstance(s, ast.Assign) and isinstance(s.targets[0], ast.Name) and s.targets[0].id == "init_expr" and "_default_value_for_type" in norm(s.value) else set())
-    tr.run_function(ha, frozenset({frozenset()}))
-    hits = 0
-    import itertools as _it
-
-    def feasible(cs, env):
-        """can this path be taken under the given truth values?  conditions over other names are left open"""
-        for text, truth in cs:
-            try:
-                node = ast.parse(text, mode="eval").body
-            except SyntaxError:
-                continue
-            names = {n_.id for n_ in ast.walk(node) if isinstance(n_, ast.Name)}
-            if not names or not names <= set(env):
-                continue
-            if any(not isinstance(n_, (ast.Name, ast.BoolOp, ast.UnaryOp, ast.And, ast.Or, ast.Not, ast.Load, ast.Expression)) for n_ in ast.walk(node)):
-                continue
-            if bool(eval(compile(ast.Expression(node), "<cond>", "eval"), {"__builtins__": {}}, dict(env))) != truth:
-                return False
-        return True
-
-    for st, state in tr.hits:
-        for alt in state:
-            cs = conds(alt)
-            if not feasible(cs, {"is_global_scope": True}):
-                continue
-            if not any("is_global_scope" in t for t, _v in cs):
-                continue
-            hits += 1
-            if "DEFAULTED" in alt:
-                r.ok("global declared with the default, assigned at run time")
-                continue
-            bad_combos = [(c_, u_) for c_, u_ in _it.product((True, False), repeat=2) if (c_, u_) != (True, False) and feasible(cs, {"is_global_scope": True, "is_const": c_, "expr_uses_names": u_})]
-            r.check(not bad_combos, "_handle_assignment_ast/global-baked-only-if-const-and-name-free", (pm, st), f"a global's initialiser is baked on a path that is open for (is_const, expr_uses_names) in {bad_combos}: an initialiser that is not constant, or that mentions other names, would be evaluated at static-init time with stale values instead of at its source position")
-    # the same decision, evaluated: the block that declares a new name is run (checker's interpreter, fabricated IR classes)
-    # for every combination of (is_const, expr_uses_names) at global scope; however the decision is written, the
-    # initialiser is baked iff the value is constant AND name-free, and otherwise the value is assigned where the statement stands
-    from .. import dl as dl_, pe as pe_
-    decl_blocks = [n for n in walk_local(ha) if isinstance(n, ast.If) and norm(n.test) == "target.id not in declared" and any(isinstance(x, ast.Call) and call_name(x) == "VarDecl" for x in ast.walk(n))]
-    evaluated = 0
-    if len(decl_blocks) == 1:
-        T = type("Tgt", (dl_.Synth,), {})
-        for c_, u_ in _it.product((True, False), repeat=2):
-            tgt_ = T()
-            tgt_.id = "x"
-            env = dl_.Env(None)
-            glist, nlist = [], []
-            for k_, v_ in (("target", tgt_), ("declared", set()), ("inferred_type", "int"), ("expr_c", "EXPR"), ("is_const", c_), ("expr_uses_names", u_), ("is_global_scope", True),
-                           ("assign_as_expr_stmt", False), ("assign_expr", "EXPR"), ("globals_list", glist), ("nodes", nlist), ("helpers", set()), ("value_obj", 1), ("vars_env", {}), ("var_types", {})):
-                dict.__setitem__(env, k_, v_)
-            it_ = dl_.Interp(pm, extra_env=pe_.ir_env())
-            try:
-                it_._block(decl_blocks[0].body, env)
-            except (dl_.Unsupported, dl_.Raised):
-                evaluated = -100
-                break
-            evaluated += 1
-            baked = [d for d in glist if getattr(d, "expr", None) == "EXPR"]
-            assigned = [x for x in nlist if type(x).__name__ in ("VarAssign", "ExprStmt") and getattr(x, "expr", None) == "EXPR"]
-            want_baked = c_ and not u_
-            okd = (bool(baked) == want_baked) and (want_baked or bool(assigned)) and len(glist) == 1
-            r.check(okd, f"_handle_assignment_ast/global-decision[is_const={c_},uses_names={u_}]", (pm, decl_blocks[0]), f"new global with is_const={c_}, expr_uses_names={u_}: declaration initialiser {[getattr(d, 'expr', None) for d in glist]}, run-time assignments {[getattr(x, 'expr', None) for x in nlist]}; expected {'the value baked into the declaration' if want_baked else 'the default in the declaration and the value assigned at the source position'}")
-    cx.extra["global_decision_evaluated"] = evaluated
-    r.check(hits >= 2 or evaluated == 4, "_handle_assignment_ast/global-decl-paths", (pm, ha), "global declaration paths not found")
-    loc = Locals(ha)
-    eun = loc.defs.get("expr_uses_names", [])
-    r.check(len(eun) == 1 and norm(eun[0]) == "_expr_has_name(value)", "_handle_assignment_ast/expr_uses_names=_expr_has_name(value)", (pm, ha), "expr_uses_names must be _expr_has_name(value)")
-    nra = [d for d in loc.defs.get("needs_runtime_assign", []) if isinstance(d, ast.expr) and not isinstance(d, ast.Constant)]
-    r.check(any(norm(d) == "not is_const or uses_names" for d in nra), "_handle_assignment_ast/tuple-globals-same-decision", (pm, ha), "tuple assignment of new globals must use the same const-and-name-free decision")
+    from .. import pe as pe_
+    r = cx.rule(rid, "for a family of integer prologues (re-assignment before a dependent definition, dependence through if/for/while blocks, tuple assignment, chains) the values left by `static initialisers, then setup()` equal the values Python leaves: an initialiser is only baked when doing so cannot read a stale value", floor=8, exhaustive=True)
+    pf = pm.func("parse")
+    scripts = {
+        "plain-constants": "a = 5\nb = 7\n",
+        "dependent-after-reassignment": "a = 1\na = 2\nb = a + 1\n",
+        "dependent-no-reassignment": "a = 2\nb = a * 10\nc = b - a\n",
+        "reassigned-from-itself": "base = 4\nbase = base * 3\nscale = base + 1\n",
+        "after-for-loop": "count = 0\nfor i in range(3):\n    count = count + 1\ntotal = count * 10\n",
+        "after-if-block": "level = 1\nif level > 0:\n    level = 6\ngain = level * 10 + 1\n",
+        "after-while-loop": "n = 0\nwhile n < 4:\n    n = n + 2\nm = n + 100\n",
+        "tuple-of-constants": "a, b = 3, 4\nc = a + b\n",
+        "tuple-after-reassignment": "x = 5\nx = 7\np, q = x, x + 1\n",
+        "swap": "lo, hi = 1, 9\nlo, hi = hi, lo\nspan = lo - hi\n",
+        "chain": "a = 1\nb = a + 1\na = 10\nc = a + b\n",
+        "else-branch": "k = 0\nif k > 5:\n    k = 1\nelse:\n    k = 2\nj = k + 40\n",
+    }
+    for label, body in scripts.items():
+        src = body + "while True:\n    a0 = 0\n"
+        want = {}
+        exec(compile(body, f"<prologue {label}>", "exec"), {"__builtins__": {"range": range}}, want)     # the checker's own integer script
+        try:
+            _it, out = pe_.parse_source(src)
+        except dl.Unsupported as e:
+            raise AnalysisError(f"parse() left the evaluable subset on prologue `{label}`: {e}")
+        if out.kind != "return":
+            r.fail(f"prologue[{label}]/accepted", (pm, pf), f"the integer prologue `{label}` is rejected with {out.value}")
+            continue
+        prog = out.value
+        env = {}
+        try:
+            for d in list(prog.global_decls):
+                env[d.name] = eval(str(d.expr), {"__builtins__": {}}, dict(env)) if not isinstance(d.expr, (int, float)) else d.expr
+            _ir_exec(list(prog.setup_body), env, [10000])
+            got = {k: env.get(k) for k in want}
+            why = ""
+        except (NameError, SyntaxError, TypeError, ZeroDivisionError) as e:
+            got, why = None, f" (static initialisers/setup could not be evaluated: {type(e).__name__}: {e})"
+        decls = "; ".join(f"{d.c_type} {d.name} = {d.expr}" for d in list(prog.global_decls))
+        r.check(got == want, f"prologue[{label}]/values-after-setup=python", (pm, pf), f"prologue `{label}`: Python leaves {want}; globals `{decls}` followed by setup() leave {got}{why}", sample=f"{label}: {want}")
     ehn = pm.func("_expr_has_name")
     safe = lit.table(pm, "_SAFE_NAME_REFERENCES")
     r.check(set(safe) <= {"len", "abs", "max", "min", "int", "float", "bool", "str"}, "_SAFE_NAME_REFERENCES/builtins-only", (pm.rel, pm.const("_SAFE_NAME_REFERENCES").lineno), f"names treated as 'not a name': {sorted(safe)}")
-    r.check("node.id not in _SAFE_NAME_REFERENCES" in norm(ehn) and "any((_expr_has_name(child) for child in ast.iter_child_nodes(node)))" in norm(ehn), "_expr_has_name/recursive-over-all-children", (pm, ehn), "_expr_has_name must report any Name outside the safe builtins anywhere in the tree")
-
+    for src_, want_ in (("x", True), ("1 + 2", False), ("len('ab')", False), ("abs(-1) + y", True), ("f(1)", True), ("[1, z]", True), ("max(1, 2)", False), ("-(3)", False), ("a.b", True), ("'s' * 2", False)):
+        try:
+            o_ = dl.Interp(pm, opaque={"ast.iter_child_nodes": lambda n_: list(ast.iter_child_nodes(n_)), "ast.walk": lambda n_: list(ast.walk(n_))}).call(ehn, [ast.parse(src_, mode="eval").body])
+        except dl.Unsupported as e:
+            raise AnalysisError(f"_expr_has_name left the evaluable subset: {e}")
+        r.check(o_.kind == "return" and bool(o_.value) == want_, "_expr_has_name/reports-any-name-outside-the-safe-builtins", (pm, ehn), f"_expr_has_name(`{src_}`) -> {o_!r}, expected {want_}")
+    return r
